@@ -82,6 +82,13 @@ def run_items(ctx, exe, key, items, findings, label):
             bad = "daemon died"
         else:
             bad = check_reply(buf)
+            if bad is None and cls.endswith("!fail") and len(buf) > 11:
+                try:
+                    rr = rig.parse_dec_rsp(buf[11:])
+                    if rr["error_num"] in (0, 15, 16, 17):
+                        bad = "a credential with a malformed interior was ACCEPTED (error %d, %d payload bytes)" % (rr["error_num"], rr["data_len"])
+                except rig.ParseError:
+                    pass
         if bad is None and (i % 250 == 249 or i == len(items) - 1):
             c = rig.canary(d.sock)
             if c:
@@ -202,6 +209,50 @@ def stall_phase(ctx, exe, key, findings):
     ctx.cov["stall"] = {"offsets": len(offs), "service_resumed_after_s": served_at}
 
 
+def oversize_phase(ctx, exe, key, findings):
+    """A request whose declared length exceeds the 1 MiB limit is refused without being buffered: after such a header
+    the daemon must close at once and must not keep taking body bytes."""
+    d = rig.Daemon(ctx, exe, tag="oversize", key=key, nthreads=2)
+    if not d.start():
+        findings.append({"kind": "daemon does not start", "class": "oversize"})
+        return
+    chunk = bytes(65536)
+    res = {}
+    for L in (2 ** 20 + 1, 2 ** 24, 2 ** 31 - 1, 2 ** 31, 2 ** 31 + 4096, 2 ** 32 - 1):
+        for t in (2, 4):
+            s = socket.socket(socket.AF_UNIX, socket.SOCK_STREAM)
+            s.settimeout(0.5)
+            s.connect(d.sock)
+            sent = 0
+            t0 = time.time()
+            closed_after = None
+            try:
+                s.sendall(rig.hdr(t, 0, L))
+                while sent < 8 * 2 ** 20 and time.time() - t0 < 4.0:
+                    try:
+                        s.sendall(chunk)
+                        sent += len(chunk)
+                    except socket.timeout:
+                        continue
+            except OSError:
+                closed_after = time.time() - t0
+            s.close()
+            ctx.count(("oversize", L, t))
+            res["%d/type%d" % (L, t)] = {"body_bytes_taken": sent, "closed_after_s": closed_after}
+            if sent > 2 * 2 ** 20:
+                findings.append({"kind": "a request declaring %d bytes (limit 1048576) was not refused: the daemon took %d body bytes "
+                                         "(it buffers / waits for an oversize request)" % (L, sent),
+                                 "class": "oversize/len%d/type%d" % (L, t), "raw_hex": rig.hdr(t, 0, L).hex(), "raw_len": 11})
+    c = rig.canary(d.sock)
+    if c:
+        findings.append({"kind": "after oversize requests: " + c, "class": "oversize"})
+    rc, rep = d.stop()
+    if rep.strip():
+        kinds, frames = hostile.summarize_report(rep)
+        findings.append({"kind": "sanitizer report after oversize requests", "class": "oversize", "sanitizer": kinds, "frames": frames, "report": rep[:3000]})
+    ctx.cov["oversize"] = res
+
+
 def live_phase(ctx):
     exe, err = rig.build_daemon(ctx, san="address")
     if exe is None:
@@ -242,6 +293,7 @@ def live_phase(ctx):
         for cls, raw in items[:2]:
             ctx.sample({"class": cls, "raw_hex": raw[:80].hex(), "len": len(raw)}, limit=14)
     stall_phase(ctx, exe, key, findings)
+    oversize_phase(ctx, exe, key, findings)
     ctx.cov["input_distribution"] = dist
     # de-duplicate by (kind, top frame)
     seen = set()
@@ -257,7 +309,7 @@ def live_phase(ctx):
         what = "%s on input class %s" % (f["kind"], f.get("class"))
         if f.get("sanitizer"):
             what += " [%s at %s]" % (f["sanitizer"][0], " <- ".join("%s %s:%d" % fr for fr in f.get("frames", [])[:3]))
-        ctx.violation(what, f, found_input=("raw_hex" in f or f.get("class") == "stall"))
+        ctx.violation(what, f, found_input=("raw_hex" in f or f.get("class") in ("stall", "oversize")))
 
 
 def run(ctx):
